@@ -121,7 +121,13 @@ def _deps_failures():
     return out
 
 
-# ---------------------------------------------------------------- helpers.rs normpath / state.rs relpath
+# ---------------------------------------------------------------- helpers.rs normpath / state.rs relpath / cycles.rs
+# (unit, probe name, function the clauses belong to, source location)
+PROBED = (('normpath', 'normpath', 'normpath', '/src/helpers.rs:normpath'),
+          ('relpath', 'relpath', 'relpath', '/src/state.rs:relpath'),
+          ('locks', 'cycles', 'check', '/src/cycles.rs:check'))
+
+
 def _path_failures(probe):
     """-> {clause label: [failing input dicts]}: normpath over every string up to length 10 over {/ . a} and 8 over
     {/ . a b} against an independent reference; relpath over ~180 spellings x bases in a small tree with a symlinked directory"""
@@ -153,15 +159,15 @@ def search(prop, violations, tier, seed):
                 hits = f.get(label) or [x for xs in f.values() for x in xs]
                 if hits:
                     return dict(probe='redo-replay tokens-exit', for_obligation=oid, failing_inputs=hits[:6])
-        for unit in ('normpath', 'relpath'):
-            if oid.startswith(unit + '/'):
-                f = _path_failures(unit)
+        for unit, probe_, fn_, where in PROBED:
+            if oid.startswith('%s/%s/' % (unit, fn_)):
+                f = _path_failures(probe_)
                 if f:
                     f.pop('__summary__', None)
                     label = oid.split('/')[-1]
                     hits = f.get(label) or [x for xs in f.values() for x in xs]
                     if hits:
-                        return dict(probe='redo-replay ' + unit, for_obligation=oid, failing_inputs=hits[:6])
+                        return dict(probe='redo-replay ' + probe_, for_obligation=oid, failing_inputs=hits[:6])
     return None
 
 
@@ -186,14 +192,14 @@ def conformance(prop, unit_names, pins_changed, labels_props):
                 out.append(dict(oid='tokens/do_force_return_tokens/%s' % label, msg='contract clause fails on the real code for a concrete input (probe tokens-exit)',
                                 where=REPO + '/src/jobserver.rs:do_force_return_tokens', site=None, text=hits[0]['clause'],
                                 rendered=json.dumps(hits[:6], indent=1), inputs=[h['input'] for h in hits], fn='do_force_return_tokens', label=label, props=props))
-    for unit, fn_, where in (('normpath', 'normpath', '/src/helpers.rs:normpath'), ('relpath', 'relpath', '/src/state.rs:relpath')):
+    for unit, probe_, fn_, where in PROBED:
         if unit in unit_names:
-            f = _path_failures(unit) or {}
+            f = _path_failures(probe_) or {}
             f.pop('__summary__', None)
             for label, hits in f.items():
                 props = labels_props.get((unit, label), ['C15'])
                 if hits and prop in props:
-                    out.append(dict(oid='%s/%s/%s' % (unit, fn_, label), msg='contract clause fails on the real code for a concrete input (probe %s)' % unit,
+                    out.append(dict(oid='%s/%s/%s' % (unit, fn_, label), msg='contract clause fails on the real code for a concrete input (probe %s)' % probe_,
                                     where=REPO + where, site=None, text=hits[0]['clause'], rendered=json.dumps(hits[:6], indent=1),
                                     inputs=[h['input'] for h in hits], fn=fn_, label=label, props=props))
     if any(p.endswith('::deps') or p.endswith('::zap_deps1') or p.endswith('::zap_deps2') or p.endswith('::add_dep') for p in pins_changed):
@@ -205,26 +211,26 @@ def conformance(prop, unit_names, pins_changed, labels_props):
     return out
 
 
-BOUNDED = {'C15': (('normpath', 'normpath', '/src/helpers.rs:normpath'), ('relpath', 'relpath', '/src/state.rs:relpath'))}
+BOUNDED = {'C15': ('normpath', 'relpath'), 'C12': ('locks',)}
 
 
 def bounded(prop, unit_names, labels_props):
     """bounded stand-ins run next to the proof (labelled bounded in the evidence): -> (failures, notes)"""
     out, notes = [], []
-    for unit, fn_, where in BOUNDED.get(prop, ()):
-        if unit not in unit_names:
+    for unit, probe_, fn_, where in PROBED:
+        if unit not in BOUNDED.get(prop, ()) or unit not in unit_names:
             continue
-        f = _path_failures(unit)
+        f = _path_failures(probe_)
         if f is None:
-            notes.append('bounded probe %s: could not be built or run (nothing concluded from it)' % unit)
+            notes.append('bounded probe %s: could not be built or run (nothing concluded from it)' % probe_)
             continue
         summ = f.pop('__summary__', {})
         notes.append('bounded probe %s: %s inputs checked against an independent reference, %s failure(s) [bounded, not counted as proved]'
-                     % (unit, summ.get('checked', '?'), summ.get('failures', '?')))
+                     % (probe_, summ.get('checked', '?'), summ.get('failures', '?')))
         for label, hits in f.items():
             props = labels_props.get((unit, label), [prop])
             if hits and prop in props:
-                out.append(dict(oid='%s/%s/%s' % (unit, fn_, label), msg='contract clause fails on the real code for a concrete input (bounded probe %s)' % unit,
+                out.append(dict(oid='%s/%s/%s' % (unit, fn_, label), msg='contract clause fails on the real code for a concrete input (bounded probe %s)' % probe_,
                                 where=REPO + where, site=None, text=hits[0]['clause'], rendered=json.dumps(hits[:6], indent=1),
                                 inputs=[h['input'] for h in hits], fn=fn_, label=label, props=props))
     return out, notes
